@@ -3,6 +3,8 @@
 package osmgeojson
 
 import (
+	"time"
+
 	"github.com/paulmach/osm"
 )
 
@@ -223,4 +225,106 @@ func oracleC17RouteWays(start int, nTags int, step int, sameTags bool, member bo
 		want10 = 0
 	}
 	vAssert(rels == 1 && ways[11] == 1 && ways[10] == want10)
+}
+
+// C17: "carrying the element's type, id, tags and, unless disabled, its
+// metadata": the meta property of a feature has exactly the keys of the
+// element's non-zero metadata fields (timestamp, version, changeset, user,
+// uid), with their values, and is absent when metadata is disabled.
+//
+//@ func oracleC17Meta
+//@   props C17
+//@   oracle
+//@   covers addMetaProperties
+func oracleC17Meta(userSet bool, uidSet bool, versionSet bool, csSet bool, tsSet bool, kind int, noMeta bool) {
+	var user string
+	var uid osm.UserID
+	var version int
+	var cs osm.ChangesetID
+	var ts time.Time
+	if userSet {
+		user = "u"
+	}
+	if uidSet {
+		uid = 5
+	}
+	if versionSet {
+		version = 3
+	}
+	if csSet {
+		cs = 9
+	}
+	if tsSet {
+		ts = time.Date(2015, 1, 2, 3, 4, 5, 0, time.UTC)
+	}
+	o := &osm.OSM{
+		Nodes: osm.Nodes{{ID: 1, Lat: 1, Lon: 1, Version: 1}, {ID: 2, Lat: 2, Lon: 2, Version: 1}},
+		Ways:  osm.Ways{{ID: 10, Version: 1, Nodes: osm.WayNodes{{ID: 1}, {ID: 2}}, Tags: osm.Tags{{Key: "highway", Value: "path"}}}},
+	}
+	want := ""
+	switch c17Abs(kind) % 3 {
+	case 0: // a lone located node
+		o.Nodes = append(o.Nodes, &osm.Node{ID: 3, Lat: 3, Lon: 3, User: user, UserID: uid, Version: version, ChangesetID: cs, Timestamp: ts})
+		want = "node"
+	case 1:
+		w := o.Ways[0]
+		w.User, w.UserID, w.Version, w.ChangesetID, w.Timestamp = user, uid, version, cs, ts
+		want = "way"
+	default:
+		o.Relations = osm.Relations{{ID: 100, User: user, UserID: uid, Version: version, ChangesetID: cs, Timestamp: ts,
+			Tags: osm.Tags{{Key: "type", Value: "route"}}, Members: osm.Members{{Type: osm.TypeWay, Ref: 10}}}}
+		want = "relation"
+	}
+	var opts []Option
+	if noMeta {
+		opts = append(opts, NoMeta(true))
+	}
+	fc, err := Convert(o, opts...)
+	vAssert(err == nil && fc != nil)
+	if fc == nil {
+		return
+	}
+	found := 0
+	for _, f := range fc.Features {
+		if f.Properties["type"] != want || (want == "node" && f.Properties["id"] != 3) {
+			continue
+		}
+		found++
+		meta, has := f.Properties["meta"].(map[string]interface{})
+		if noMeta {
+			vAssert(!has && f.Properties["meta"] == nil)
+			continue
+		}
+		vAssert(has)
+		_, hu := meta["user"]
+		_, hi := meta["uid"]
+		_, hv := meta["version"]
+		_, hc := meta["changeset"]
+		_, ht := meta["timestamp"]
+		vAssert(hu == userSet && hi == uidSet && hv == versionSet && hc == csSet && ht == tsSet)
+		vAssert(len(meta) == c17Count(userSet, uidSet, versionSet, csSet, tsSet))
+		if userSet {
+			vAssert(meta["user"] == user)
+		}
+		if uidSet {
+			vAssert(meta["uid"] == uid)
+		}
+		if versionSet {
+			vAssert(meta["version"] == version)
+		}
+		if csSet {
+			vAssert(meta["changeset"] == cs)
+		}
+	}
+	vAssert(found == 1)
+}
+
+func c17Count(bs ...bool) int {
+	n := 0
+	for _, b := range bs {
+		if b {
+			n++
+		}
+	}
+	return n
 }
